@@ -337,9 +337,13 @@ static void run_c10(void)
                 unsigned k, v;
                 lcg_fill(key, sizeof(key), 7);
                 for (k = 24; k <= 31; ++k) for (v = 0; v <= 3; ++v) c10_case(ep, be, (1u << k) + v * (unsigned)bs, key, 0);
+                /* a length or a block count kept in a narrower type: 2^k + every length up to one past the longest legal one,
+                 * for 2^8 .. 2^23 (bs * 2^8 and bs * 2^16 among them) and 3 * 2^8 */
+                for (k = 8; k <= 23; ++k) for (v = 0; v <= (unsigned)(bs * ep_maxblocks(ep)) + 1; ++v) c10_case(ep, be, (1u << k) + v, key, 0);
+                for (v = 0; v <= (unsigned)(bs * ep_maxblocks(ep)) + 1; ++v) c10_case(ep, be, 768u + v, key, 0);
                 for (v = 1; v <= 48; ++v) c10_case(ep, be, 0u - v, key, 0);
             }
-            if (job < 5) sample_add("%s on %s: key lengths 0..64 and {65,255,256,65536,2^31,UINT_MAX}; accepted lengths compared with the zero-padded key (schedule image, ciphertexts, specification)", EPNAME[ep], be_name(be));
+            if (job < 5) sample_add("%s on %s: key lengths 0..64, {65,255,256,65536,2^31,UINT_MAX}, 2^k + v for k = 8..23 and every v up to one past the longest legal length, 2^k + whole blocks for k = 24..31, 2^32 - v; accepted lengths compared with the zero-padded key (schedule image, ciphertexts, specification)", EPNAME[ep], be_name(be));
         }
     }
     /* Mantis: sizes x rounds x modes */
@@ -400,8 +404,10 @@ static void run_c14s(void)
         C14_BEGIN("mantis_set_key", "null-key-mantis") memcpy(a, &mk, sizeof(mk)); LIB(r = mantis_set_key(&mk, NULL, 16, 5, MANTIS_ENCRYPT));
             if (r || memcmp(a, &mk, sizeof(mk))) c14_report("mantis_set_key", "null-key", cd, "returned %d or changed the schedule", r); C14_END();
         {
-            unsigned bad128[] = {0, 17, 255, UINT_MAX}, bad64[] = {0, 9, 255, UINT_MAX}, badm[] = {0, 7, 9, 16, UINT_MAX}; unsigned i;
-            for (i = 0; i < 4; ++i) {
+            /* out of range, among them lengths that equal a legal one modulo 2^8 and 2^16 */
+            unsigned bad128[] = {0, 17, 255, UINT_MAX, 256, 257, 264, 272, 512 + 16, 65536 + 16, 0x1000010u}, bad64[] = {0, 9, 255, UINT_MAX, 256, 257, 260, 264, 512 + 8, 65536 + 8, 0x1000008u},
+                     badm[] = {0, 7, 9, 16, UINT_MAX, 264, 65536 + 8}; unsigned i;
+            for (i = 0; i < sizeof(bad128) / sizeof(bad128[0]); ++i) {
                 C14_BEGIN("skinny128_set_tweak", "null-tweak-bad-len-128") memcpy(a, &t128, sizeof(t128)); LIB(r = skinny128_set_tweak(&t128, NULL, bad128[i]));
                     if (r || memcmp(a, &t128, sizeof(t128))) c14_report("skinny128_set_tweak", "null-tweak-bad-length", cd, "NULL tweak with size %u: returned %d or changed the schedule", bad128[i], r); C14_END();
                 C14_BEGIN("skinny64_set_tweak", "null-tweak-bad-len-64") memcpy(a, &t64, sizeof(t64)); LIB(r = skinny64_set_tweak(&t64, NULL, bad64[i]));
@@ -411,7 +417,7 @@ static void run_c14s(void)
                 C14_BEGIN("skinny64_set_tweak", "bad-tweak-len-64") memcpy(a, &t64, sizeof(t64)); LIB(r = skinny64_set_tweak(&t64, flush_buf(key, 1), bad64[i]));
                     if (r || memcmp(a, &t64, sizeof(t64))) c14_report("skinny64_set_tweak", "bad-length", cd, "tweak size %u: returned %d or changed the schedule", bad64[i], r); C14_END();
             }
-            for (i = 0; i < 5; ++i) {
+            for (i = 0; i < sizeof(badm) / sizeof(badm[0]); ++i) {
                 C14_BEGIN("mantis_set_tweak", "null-tweak-bad-len-mantis") memcpy(a, &mk, sizeof(mk)); LIB(r = mantis_set_tweak(&mk, NULL, badm[i]));
                     if (r || memcmp(a, &mk, sizeof(mk))) c14_report("mantis_set_tweak", "null-tweak-bad-length", cd, "NULL tweak with size %u: returned %d or changed the schedule", badm[i], r); C14_END();
                 C14_BEGIN("mantis_set_tweak", "bad-tweak-len-mantis") memcpy(a, &mk, sizeof(mk)); LIB(r = mantis_set_tweak(&mk, flush_buf(key, 1), badm[i]));
@@ -474,7 +480,12 @@ static void run_c14s(void)
                     if (memcmp(out3, out2, sizeof(out3)) != 0) c14_report(pfn, "later-results-changed", cd, "results after the invalid call (class %d) differ", cls);
                 }
                 /* calls on dead objects must return 0 */
-                if (state != 2 && state != 1) { r = par_crypt((Cipher)c, &o, out, in, tw, (size_t)bs, 0); if (r) c14_report(pfn, "dead-object-accepted", cd, "crypt on a %s object returned %d", st[state], r); }
+                if (state != 2 && state != 1) {
+                    r = par_crypt((Cipher)c, &o, out, in, tw, (size_t)bs, 0); if (r) c14_report(pfn, "dead-object-accepted", cd, "crypt on a %s object returned %d", st[state], r);
+                    /* the decrypt entry point, one block and a batch plus a block */
+                    r = par_crypt((Cipher)c, &o, out, in, tw, (size_t)bs, 1); if (r) c14_report(pfn, "dead-object-accepted", cd, "decrypt of one block on a %s object returned %d", st[state], r);
+                    r = par_crypt((Cipher)c, &o, out, in, tw, (size_t)par_batch((Cipher)c, be) + (size_t)bs, 1); if (r) c14_report(pfn, "dead-object-accepted", cd, "decrypt of a batch and a block on a %s object returned %d", st[state], r);
+                }
                 par_cleanup((Cipher)c, &o);
                 guard_leave();
             }
